@@ -224,6 +224,12 @@ func setTable(bs []board) string {
 	if err := os.WriteFile(env.Path(".BRD"), buf.Bytes(), 0o644); err != nil {
 		panic(err)
 	}
+	// poison both orders: only a SortBCache over the newly loaded records makes them sorted permutations again
+	for k := 0; k < 2; k++ {
+		for i := 0; i < maxBoard; i++ {
+			cache.Shm.Shm.BSorted[k][i] = 0
+		}
+	}
 	cache.ReloadBCache()
 	cur = readTable()
 	var sb strings.Builder
@@ -387,7 +393,7 @@ func do(line string) {
 		return
 	}
 	switch {
-	case ws[0] == "reset" && len(ws) == 6:
+	case ws[0] == "reset" && (len(ws) == 6 || (len(ws) == 7 && ws[6] == "busy")):
 		_, ok1 := parseNat(ws[1])
 		_, ok2 := parseNat(ws[2])
 		bs, ok3 := parseBoards(ws[3])
@@ -405,7 +411,15 @@ func do(line string) {
 			bad() // cannot be loaded; never generated
 			return
 		}
+		if len(ws) == 7 {
+			// the table is (re)loaded by a daemon that finds BBusyState left set by a loader that died holding it
+			cache.Shm.Shm.BBusyState = 1
+		}
 		resetTable(bs)
+	case ws[0] == "busy" && len(ws) == 2 && (ws[1] == "0" || ws[1] == "1"):
+		// 1: a loader died between `BBusyState = 1` and its deferred reset; the flag lives in SysV memory and survives it
+		cache.Shm.Shm.BBusyState = int32(ws[1][0] - '0')
+		op(line, "ok", "busy:"+ws[1], false)
 	case ws[0] == "bid" && len(ws) == 2:
 		q, ok := parseHex(ws[1])
 		if !ok {
